@@ -5,9 +5,13 @@ Three streams (DESIGN.md §6 C14):
       against the library pipeline wired with separate arenas inside the harness
       (`nsverif pipeline lib`): stdout bytes, exit status, status 0 iff no error diagnostic;
   (b) property oracle, no model: an in-process replica of wasm/src/lib.rs run_source
-      (`nsverif pipeline wasm`) runs random sequences of programs back to back in one process
-      (debug build: 0xDD/0xCD poisoning makes stale reads visible); each result is compared
-      with the same program's stand-alone result, every program occurs at least twice;
+      (`nsverif pipeline wasm`; borrows, conflict arguments, arena roles and drop points are
+      executed as read from the current source, the phase skeleton is fixed and cross-checked
+      against a literal copy) — every program alone: its result must be what the library
+      pipeline with separate arenas gives and both scratch arenas must be back at offset 0 /
+      commit 0; then random sequences of programs back to back in one process (debug build:
+      0xDD/0xCD poisoning makes stale reads visible): each result is compared with the same
+      program's stand-alone result, programs recur within a sequence;
   (c) model tie: random op histories drive the real scratch API (init / scratch_arena /
       allocator calls / drops) and the extracted theories/Scratch.v (`nsmodel scratch`);
       borrow targets, saved offsets, every returned block, offsets, commits, live counts
@@ -25,13 +29,15 @@ from concurrent.futures import ThreadPoolExecutor
 import common
 
 TRUSTED_EXTRA = [
-    "C14: translator/gen_scratch.py (regex + brace-depth reading of main.rs / cmd.rs run_source / wasm lib.rs run_source / scratch.rs into GenWiring.v)",
-    "C14: the wasm entry point is exercised through a statement-by-statement copy inside the harness (the wasm crate is cfg(target_family=\"wasm\") only and needs wasm-bindgen); ansi_to_html::convert is replaced by the identity",
+    "C14: translator/gen_scratch.py (regex + brace-depth reading of main.rs / cmd.rs run_source / wasm lib.rs run_source / scratch.rs / the reset sites of runtime.rs into GenWiring.v)",
+    "C14: the wasm crate is cfg(target_family=\"wasm\") only and needs wasm-bindgen, so its entry point is executed inside the harness by a scripted replica: the borrows, their conflict arguments, the arena handed to each phase and the drop points come from the script read out of the current wasm/src/lib.rs; the phase skeleton (stop on any parse diagnostic / resolver error / runtime error, join the output) is fixed in the harness and cross-checked against a literal copy of run_source; ansi_to_html::convert is replaced by the identity",
     "C14: commit/decommit system calls modelled as always succeeding; ExitCode::SUCCESS/FAILURE are 0/1 (unix)",
+    "C14: for a run that ends with the stack-overflow diagnostic only the bytes up to the diagnostic's header are compared between naija and the harness (the expression at which the native-stack budget trips depends on each executable's frame sizes)",
 ]
 ASSUMPTIONS = [
-    "clients of a scratch borrow follow the discipline stated in theories/Scratch.v (`disc`): only the newest borrow of an arena is used, a borrow grows/shrinks/writes/resets-to only blocks it allocated itself, resets target offsets between the borrow's saved offset and the current offset, init is called while no borrow is live; src/runtime.rs is read to obey it (4 reset sites), this is not machine-checked against the Rust",
-    "generated programs are deterministic and terminate; programs on which library and CLI both crash the interpreter identically (defects of other properties) are counted, not compared",
+    "clients of a scratch borrow follow the discipline stated in theories/Scratch.v (`disc`): only the newest borrow of an arena is used, a borrow grows/shrinks/writes/resets-to only blocks it allocated itself, resets target offsets between the borrow's saved offset and the current offset, init is called while no borrow is live. Against the source: the translator finds every arena reset outside src/arena (5 sites in runtime.rs) and checks that each targets an offset read from `.offset()` of the same arena by the same function or by each caller (Example runtime_resets_target_own_marks); that these marks are used in stack order is read from the code, not machine-checked",
+    "generated programs are deterministic and terminate; runs that exhaust an arena or the harness time limit, and programs on which library and CLI both crash the interpreter with one output a prefix of the other (defects of other properties), are counted, not compared",
+    "the model cannot exhibit a stale read of bytes left by a previous run (no modelled client reads what it has not written); equality of addresses and success/failure after re-initialisation is a theorem, equality of results is checked by the back-to-back debug runs (0xDD/0xCD poisoning)",
 ]
 COQ_TIMEOUT = 1500
 PLACEHOLDER = "<<C14-FILE>>"
@@ -554,41 +560,34 @@ def shrink_program(env, src, mode, budget=90.0):
 # stream (b): back-to-back runs through the playground entry point
 
 def read_wiring(name):
-    """The script and capacity that translator/gen_scratch.py extracted from the current source
-    (coq/theories/GenWiring.v), as the word list the harness's scripted replica executes."""
-    txt = open(os.path.join(common.COQ, "theories", "GenWiring.v")).read()
-    m = re.search(r"Definition %s_script : list wev :=\s*\[(.*?)\]\." % name, txt, re.S)
-    c = re.search(r"Definition %s_capacity : Z := (\d+)\." % name, txt)
-    if not m or not c:
-        raise RuntimeError("GenWiring.v: %s_script / %s_capacity not found" % (name, name))
+    """The script and capacity of the playground entry point, read from the source under test by
+    the same reader that generates GenWiring.v (called directly: the generated file is shared
+    with checks that may run against another tree at the same time), as the word list the
+    harness's scripted replica executes."""
+    import importlib.util
+    spec = importlib.util.spec_from_file_location("gen_scratch", os.path.join(common.VERIF, "translator", "gen_scratch.py"))
+    gs = importlib.util.module_from_spec(spec)
+    spec.loader.exec_module(gs)
+    gs.REPO = common.REPO
+    cap, evs = gs.wasm_wiring()
     words = []
-    for ev in m.group(1).split(";"):
+    for ev in evs:
         ev = ev.strip()
-        mm = re.fullmatch(r"WBorrow \(WNone\)", ev)
-        if mm:
+        if ev == "WBorrow (WNone)":
             words.append("Bn")
-            continue
-        mm = re.fullmatch(r"WBorrow \(WHandle (\d+)\)", ev)
-        if mm:
-            words.append("Bh%s" % mm.group(1))
-            continue
-        if ev == "WDrop":
+        elif re.fullmatch(r"WBorrow \(WHandle (\d+)\)", ev):
+            words.append("Bh%s" % re.fullmatch(r"WBorrow \(WHandle (\d+)\)", ev).group(1))
+        elif ev == "WDrop":
             words.append("D")
-            continue
-        mm = re.fullmatch(r"WParse (\d+)", ev)
-        if mm:
-            words.append("P%s" % mm.group(1))
-            continue
-        mm = re.fullmatch(r"WResolve (\d+) (\d+)", ev)
-        if mm:
-            words.append("R%s,%s" % mm.groups())
-            continue
-        mm = re.fullmatch(r"WRun (\d+) (\d+)", ev)
-        if mm:
-            words.append("X%s,%s" % mm.groups())
-            continue
-        raise RuntimeError("GenWiring.v: unknown event %r" % ev)
-    return int(c.group(1)), words
+        elif re.fullmatch(r"WParse (\d+)", ev):
+            words.append("P%s" % ev.split()[1])
+        elif re.fullmatch(r"WResolve (\d+) (\d+)", ev):
+            words.append("R%s,%s" % tuple(ev.split()[1:]))
+        elif re.fullmatch(r"WRun (\d+) (\d+)", ev):
+            words.append("X%s,%s" % tuple(ev.split()[1:]))
+        else:
+            raise RuntimeError("unknown wiring event %r" % ev)
+    return cap, words
 
 
 def run_wasm(env, name, seqs, scripted=True):
@@ -913,7 +912,7 @@ def stream_scratch(env, res, n_hist, model, searching):
             again = [list(hists[j]) for j in rng.sample(range(per_proc), 4)]
             for j, h in enumerate(again):
                 h[0] = "H %d" % (per_proc + j)
-            impl, mod, err = run_scratch(env, "sc%d_%d" % (int(release), proc), cap, hists + again, model=model, release=release)
+            impl, mod, err = run_scratch(env, "sc%d_%d" % (int(release), proc % 4), cap, hists + again, model=model, release=release)
             proc += 1
             done += per_proc
             if impl is None:
